@@ -446,7 +446,7 @@ def _len_of(x, st):
     return None
 
 
-ATOM_BOUNDS = ((0, 1), (0, 2), (-1, 2))      # boolean, non-negative integer, general integer
+ATOM_BOUNDS = ((0, 1), (0, 2), (-1, 2), (-1, 1))      # boolean, non-negative integer, general integer, negative lower bound with upper bound 1
 
 
 def states(max_a=2, max_k=2):
@@ -482,6 +482,14 @@ def interp(t, st):
         if n is not None:
             return n
         raise Uninterp(T.show(t))
+    if k == 'call' and t[1] in (T.G('min'), T.G('max'), T.G('sum')) and len(t[2]) == 1 and not t[3] and t[2][0][0] == 'map' \
+            and t[2][0][1][0] == 'lam' and t[2][0][1][1] == 1 and _strip_list(t[2][0][2]) == ATOMS:
+        # the smallest / largest / total of a quantity of the atom children (their declared bounds)
+        body = t[2][0][1][2]
+        vals = [interp(body, dict(st, bv=b)) for b in st.get('ab', ((0, 1),) * st['nA'])[:st['nA']]]
+        if not vals and t[1] != T.G('sum'):
+            raise Uninterp('min / max of no atoms')
+        return {'min': min, 'max': max, 'sum': sum}[t[1][1]](vals)
     if k == 'call' and t[1] in (T.G('abs'), T.G('min'), T.G('max'), T.G('int')) and not t[3]:
         args = [interp(a, st) for a in t[2]]
         return {'abs': abs, 'min': min, 'max': max, 'int': int}[t[1][1]](*args)
